@@ -1176,6 +1176,11 @@ def oracle_sizes(program, asm: models.Assembly, names, verdict, res: RunResult, 
             continue
         if len(verdict.sources.get(asm.family_of(name_index[users[0][0]], users[0][1])[0], [])) >= 2:
             stats["multi_source_edges_compared"] = stats.get("multi_source_edges_compared", 0) + 1
+        if asm.family_of(name_index[users[0][0]], users[0][1])[0] in asm.mobius:
+            # a family that is anti-aligned with itself (a ring that twists): no dictionary can give a graded
+            # edge the same physical sequence from every member - an impossible demand, not judged
+            stats["mobius_skipped"] += 1
+            continue
         L = elen[key]
         stats["shared_edges_compared"] += 1
         if len({u[4] for u in users}) > 1:
@@ -1199,6 +1204,8 @@ def oracle_sizes(program, asm: models.Assembly, names, verdict, res: RunResult, 
     for bi, rb in enumerate(asm.blocks):
         for a in range(3):
             secs = rb.chops[a]
+            if asm.family_of(bi, a)[0] in asm.mobius:
+                continue  # (a family anti-aligned with itself: see above)
             if not secs or any(sc.get("preserve") in ("start_size", "end_size") or sc.get("start_size") is not None
                                or sc.get("end_size") is not None or sc.get("count") is None for sc in secs):
                 continue
